@@ -1,0 +1,108 @@
+//! Verification hooks, only compiled with the `verif` cargo feature (off by default).
+//!
+//! Two thread-local instruments used by external runtime monitors:
+//!
+//! * a step counter ("fuel"): loops of interest call [`tick`]; when a limit set with
+//!   [`set_fuel`] is exceeded the call panics with a [`FuelExhausted`] payload so that a
+//!   potentially non-terminating computation becomes a deterministic, catchable event.
+//! * an event log: the Levenberg-Marquardt problems append [`Event`]s from `set_params`,
+//!   `residuals` and `jacobian`, so that a checker can validate the solver trace offline.
+//!
+//! Nothing in here changes the behaviour of the library when no limit is set and logging is off.
+
+use std::cell::{Cell, RefCell};
+
+/// Panic payload raised by [`tick`] when the step budget is exceeded.
+#[derive(Debug, Clone)]
+pub struct FuelExhausted {
+    pub site: &'static str,
+    pub used: u64,
+}
+
+#[derive(Debug, Clone, Copy, PartialEq, Eq)]
+pub enum EventKind {
+    SetParams,
+    Residuals,
+    Jacobian,
+}
+
+#[derive(Debug, Clone)]
+pub struct Event {
+    pub problem: &'static str,
+    pub kind: EventKind,
+    /// Parameter vector of the problem at the time of the event
+    pub x: Vec<f64>,
+    /// Residual vector, or Jacobian in row-major order; empty for `SetParams`
+    pub values: Vec<f64>,
+}
+
+thread_local! {
+    static LIMIT: Cell<u64> = const { Cell::new(u64::MAX) };
+    static USED: Cell<u64> = const { Cell::new(0) };
+    static SITES: RefCell<Vec<(&'static str, u64)>> = const { RefCell::new(Vec::new()) };
+    static LOGGING: Cell<bool> = const { Cell::new(false) };
+    static LOG: RefCell<Vec<Event>> = const { RefCell::new(Vec::new()) };
+}
+
+/// Reset the step counters of this thread and set the number of steps after which [`tick`] panics.
+pub fn set_fuel(limit: u64) {
+    LIMIT.with(|l| l.set(limit));
+    USED.with(|u| u.set(0));
+    SITES.with(|s| s.borrow_mut().clear());
+}
+
+/// Steps counted on this thread since the last [`set_fuel`].
+pub fn fuel_used() -> u64 {
+    USED.with(|u| u.get())
+}
+
+/// Per-site step counts on this thread since the last [`set_fuel`].
+pub fn fuel_sites() -> Vec<(&'static str, u64)> {
+    SITES.with(|s| s.borrow().clone())
+}
+
+/// Count one step of the loop named `site`.
+pub fn tick(site: &'static str) {
+    let used = USED.with(|u| {
+        let v = u.get() + 1;
+        u.set(v);
+        v
+    });
+    SITES.with(|s| {
+        let mut s = s.borrow_mut();
+        if let Some(e) = s.iter_mut().find(|e| e.0 == site) {
+            e.1 += 1;
+        } else {
+            s.push((site, 1));
+        }
+    });
+    if used > LIMIT.with(|l| l.get()) {
+        // Disarm so that unwinding code which ticks again does not double panic
+        LIMIT.with(|l| l.set(u64::MAX));
+        std::panic::panic_any(FuelExhausted { site, used });
+    }
+}
+
+/// Turn the event log of this thread on or off (clears it).
+pub fn set_logging(on: bool) {
+    LOGGING.with(|l| l.set(on));
+    LOG.with(|l| l.borrow_mut().clear());
+}
+
+/// Take the events recorded on this thread.
+pub fn take_log() -> Vec<Event> {
+    LOG.with(|l| std::mem::take(&mut *l.borrow_mut()))
+}
+
+pub fn log_event(problem: &'static str, kind: EventKind, x: &[f64], values: &[f64]) {
+    if LOGGING.with(|l| l.get()) {
+        LOG.with(|l| {
+            l.borrow_mut().push(Event {
+                problem,
+                kind,
+                x: x.to_vec(),
+                values: values.to_vec(),
+            })
+        });
+    }
+}
